@@ -305,7 +305,10 @@ operators (`0=2`: inside the array part the `Operator(Equal)` token is kept; `?=
 there) and containers that start with a scalar (objects, arrays, mixed containers — ParseOpen then
 flags the enclosing container, which keeps the mixed mode alive); a nested object whose FIRST
 field is a header field (`{ a = rgb { 1 } … }`) or a parameter block (`{ [[p] v] … }`,
-`{ [[p] k = v … ] … }`); a parameter value that is the header of a container (`[[p] v] { … }`).
+`{ [[p] k = v … ] … }`); a parameter value that is the header of a container (`[[p] v] { … }`); arrays that turn mixed
+(`{ 10 0=2 1=2 }`, `{ { a } 1 2=3 }`: the first operator behind a scalar element that is not the
+first token of the array puts `MixedContainer` in front of that scalar, the rest is an array part
+as above).
 
 Still outside (tolerated malformations and quirks, see the examples below): an empty container,
 a container starting with `{` or a ghost `{}`, or a parameter block inside the array part of a mixed
@@ -382,6 +385,16 @@ def exampleFullParamHdr : FFields :=
         (.cons [32] ⟨false, [99]⟩ [] .eq (.scal [] ⟨false, [100]⟩) .nil))) .nil []) .nil
 
 example : parse (frenderF exampleFullParamHdr ++ [10]) = .ok (ftapeF exampleFullParamHdr 0 [10]) false := by
+  decide +kernel
+
+/-- `x={10 0=2 1=2 {3 4}}`: an array that turns mixed -/
+def exampleFullArrMixed : FFields :=
+  .cons [] ⟨false, [120]⟩ [] .eq
+    (.arrSM [] [] ⟨false, [49, 48]⟩ .nil [32] ⟨false, [48]⟩ [] .eq
+      (.scal [] ⟨false, [50]⟩ (.scal [32] ⟨false, [49]⟩ (.op [] .eq (.scal [] ⟨false, [50]⟩
+        (.cont (.arrS [32] [] ⟨false, [51]⟩ (.cons (.scal [32] ⟨false, [52]⟩) .nil) []) .nil))))) []) .nil
+
+example : parse (frenderF exampleFullArrMixed ++ [10]) = .ok (ftapeF exampleFullArrMixed 0 [10]) false := by
   decide +kernel
 
 /-- `a=b c d`: a mixed top level is not accepted -/
